@@ -14,6 +14,9 @@ claimed = {
  "C02": ("proof", "§4 C02", "startRecording/process are proved to begin a file at max(previous last+1, trigger-(size-1)) with size = preview-secs*fps+trigger-frames established by NewMotionProcessor; FrameLoop.GetHistory is proved to return exactly the retained history oldest first.", ""),
  "C03": ("proof", "§4 C03", "process is proved to stop exactly when framesWritten reaches min(lastMotion+minFrames, maxFrames) (ghost lastMotionFW), with min/maxFrames = secs*FPS() from NewMotionProcessor and max>=min from RecorderConfig.validate.", "Clause guarded by 'no write fault in this file' (the statement does not speak about write faults)."),
  "C04": ("proof", "§4 C04", "process is proved to start a recording iff not recording, motion, run+1 >= trigger-frames, window active, CheckCanRecord ok and the sink's start succeeds (ghost run counter, oracles for window/disk/start).", "window.Window.Active() and the sink's CheckCanRecord are oracles (dependency / interface contract)."),
+ "C05": ("proof", "§4 C05", "Proved on /repo: a frame reaches the wrapped recorder only by consuming exactly one token (WriteFrame: base.writes delta == tokens-taken delta <= 1; Start/Stop never write), and the bucket is constructed with capacity floor(bucket-size secs)*fps, min length minSeconds*fps and rate minFrames/min-refill secs. The token-bucket law itself (tokens handed out in any interval <= capacity + refill earned) is the juju/ratelimit dependency's: its TakeAvailable/Available contracts are ASSUMED (contracts/ratelimit.spec).",
+         "ASSUMED: juju/ratelimit Bucket contract (refill monotone, capped at capacity, TakeAvailable(1) hands out a token iff one is available); NewBucketWithRateAndClock's rate search; clock monotone. The wiring in cmd/thermal-recorder/main.go (Activate, MinSecs+PreviewSecs) is not yet under contract."),
+ "C06": ("proof", "§4 C06", "StartRecording/WriteFrame/StopRecording/maybeStartRecording/CheckCanRecord of ThrottledRecorder are proved per case against the sink automaton of the wrapped recorder: within budget exactly one forwarded call with the same arguments and result; suppressed start / cut: exactly one WhenThrottled, clean stop, cut file holds >= minRecordingLength frames (invariant inFile+available >= min); mid-trigger restart only with available >= minRecordingLength and with the remembered background/threshold; failing base start leaves recording false; base sink protocol requires discharged at every call.", "ASSUMED: juju/ratelimit Bucket contract; wrapped recorder obeys the recorder.Recorder contract."),
  "C12": ("proof", "§4 C12", "The sink protocol (write only while open, no start while open) is a requires of the recorder.Recorder interface contract and is discharged at every call site of the three sinks for every fault placement; the processor invariant is proved to be re-established after every outcome; the automatic no-panic sweep (nil, index, slice bounds, division) covers every function under contract.", "Implementations of recorder.Recorder are assumed to refine the interface contract."),
  "C17": ("proof", "§4 C17", "processConstantRecorder/processSnapshot are proved per call: one write per frame, start iff the file is empty, stop iff maxFrames+1 (resp. 21) frames are in the file; Process calls them once per valid frame with the same frame.", ""),
  "C19": ("proof", "§3.1/§4 C19", "All ten FrameLoop functions are proved against an abstract history view (ghost base/mark): inv preserved, GetHistory = retained sequence numbers oldest first ending with the current frame, Oldest, CopyRecent, Reset, for every capacity >= 1 and every reachable state.", "cptvframe.NewFrame/CreateCopy contracts assumed (fresh storage)."),
